@@ -290,6 +290,9 @@ def gen_value(ty, rng):
             return s
         if tr == "lower":
             return T._TransformedValue(s, s.lower())
+        if isinstance(tr, tuple) and tr[0] == "oracle":
+            s = rng.choice(VALUE_STRINGS + ['""', '"quoted"', '""', '"'])
+            return T._TransformedValue(s, tr[2](s))
         return NotImplemented
     if k == "Integer":
         if ty[4] is not None:
@@ -309,8 +312,15 @@ def gen_value(ty, rng):
         a, b = gen_value(ty[4], rng), gen_value(ty[5], rng)
         if a is NotImplemented or b is NotImplemented:
             return NotImplemented
-        if ty[2] and rng.random() < 0.3 and ty[4] == ty[5]:
+        if ty[2] and rng.random() < 0.4 and ty[4] == ty[5]:
             b = a
+            if isinstance(a, T._TransformedValue) and rng.random() < 0.7:
+                # same effective value, different spelling: compares equal, serializes differently
+                twin = a.original.swapcase()
+                tr = ty[4][3] if ty[4][0] == "String" else ty[4][2]
+                fn = cfglib._tr_fn(tr)
+                if fn(twin) == str(a) and twin != a.original:
+                    b = T._TransformedValue(twin, fn(twin))
         return (a, b)
     if k == "List":
         items = []
@@ -334,7 +344,10 @@ def gen_ty_pairish(rng):
                             ("String", False, None, "lower"), ("Integer", False, None, None, None), ("Boolean", False)])
     sep = rng.choice(["|", "|", "=", "::", "->"])
     pair = ("Pair", rng.random() < 0.3, rng.random() < 0.35, sep, S(), S())
-    shape = rng.choice(["pair", "pair", "list-pair", "pair-pair"])
+    shape = rng.choice(["pair", "pair", "list-pair", "pair-pair", "twin"])
+    if shape == "twin":
+        low = rng.choice([("String", False, None, "lower"), ("Secret", False, "lower")])
+        return ("Pair", False, True, sep, low, low)
     if shape == "pair":
         return pair
     if shape == "list-pair":
@@ -786,7 +799,9 @@ def format_stage(chk, scratch, schemas, base):
 def gen_direct_config(rng):
     """A schema list and a config over it whose values are built directly (gen_value)."""
     S, So = ("String", False, None, None), ("String", True, None, None)
-    pool = [S, So, ("Secret", False, None), ("Secret", True, "lower"), ("Integer", False, None, None, None), ("Boolean", False),
+    SQ = ("Secret", False, ("oracle", 8, cfglib.ORACLE_TRS[8]))
+    LOW = ("String", False, None, "lower")
+    pool = [S, So, ("Secret", False, None), ("Secret", True, "lower"), SQ, SQ, LOW, ("Pair", False, True, "|", LOW, LOW), ("Integer", False, None, None, None), ("Boolean", False),
             ("List", True, False, S), ("List", True, True, S), ("Pair", False, False, "|", S, S),
             ("Pair", False, True, "=", S, ("Secret", False, None)), ("List", True, False, ("Pair", False, False, "=", S, S)),
             ("LogLevel",), ("LogColor",)]
